@@ -440,3 +440,18 @@ Definition wport_fits (aw dw : nat) (w : wport) : Prop :=
   0 <= w_addr w < 2 ^ Z.of_nat aw /\ 0 <= w_data w < 2 ^ Z.of_nat dw /\ 0 <= w_en w < 2.
 Definition cycle_fits (aw dw : nat) (c : cycle) : Prop :=
   Forall (wport_fits aw dw) (fst c) /\ Forall (fun a => 0 <= a < 2 ^ Z.of_nat aw) (snd c).
+
+(* ------------------------------------------------------------------ *)
+(** * (vii) a write port described under conditional_assignment          *)
+(* conditional._finalize, memory branch: the branches (predicate, (addr, data, enable)) of one
+   memory are folded into ONE '@' net:
+     enable = select(p0, en0, 0); addr = addr0; data = data0;
+     for every later branch:  x = select(p, x_branch, x)   for x in enable, addr, data
+   (a plain `mem[a] |= d` has enable Const 1, an EnabledWrite its own enable) *)
+Definition cond_port (brs : list (bool * wport)) : wport :=
+  match brs with
+  | [] => (0, 0, 0)
+  | (p0, w0) :: rest =>
+      fold_left (fun (acc : wport) (pw : bool * wport) => if fst pw then snd pw else acc) rest
+                (w_addr w0, w_data w0, if p0 then w_en w0 else 0)
+  end.
